@@ -28,7 +28,9 @@ RULE = ("a case is a history over 1-2 datasets and a 2-4 id pool: batches whose 
         "F02a/F02b) and legacy duplicates injected with raw key deletes at any position; then one or two compactions with threshold in "
         "{1,2,3,5,default}, optionally killed at the k-th flush (store reopened) or with a writer committing at the k-th flush; every "
         "compaction is bracketed by the same block of reads (full feed, latest-only feed, listing, current and point-in-time lookups, "
-        "outgoing/incoming relations) and a raw key dump; non-trivial = the compaction removes or should remove at least one version, "
+        "outgoing/incoming relations) and a raw key dump (a failing or panicking read is a spec failure); plus targeted cases: k entities "
+        "whose last version is a duplicate, threshold 1-2, a writer at the r-th flush writing an entity whose re-point was already "
+        "flushed (then re-posting the old content), or a kill at the r-th flush followed by a complete compaction; non-trivial = the compaction removes or should remove at least one version, "
         "or is crashed/raced; distinct = distinct history JSON")
 TRUSTED = [
     "contents are abstracted as in the store core (codes of canonical JSON values; serialized lengths observed from Go); the strategy's "
@@ -112,11 +114,20 @@ def witness_cases():
     # F12c: an in-batch duplicate (same recorded time) carrying a reference: removing it deletes the reference keys it shares
     # with the kept version, the relation disappears from the index
     cs.append(compact_case(["a"], ["e1", "e2"], [B("a", E("e1", A, r), E("e1", A, r))], [{"ds": "a", "threshold": 0}]))
-    cs.append(compact_case(["a"], ["e1", "e2"], [B("a", E("e1", {"p2": sc.NESTED1}, r), E("e1", {"p2": sc.NESTED1}, r))], [{"ds": "a", "threshold": 1}]))
+    cs.append(compact_case(["a"], ["e1", "e2"], [B("a", E("e1", {"p2": sc.NESTED1}, r), E("e1", {"p2": sc.NESTED1}, r))], [{"ds": "a", "threshold": 2}]))   # 3 delete keys >= 2: one extra flush
     # F12b again, the duplicate injected with raw deletes (does not depend on F02a)
     cs.append(compact_case(["a"], ["e1"], [B("a", E("e1", A)), {"op": "dup", "ds": "a", "id": "http://v/e1"}],
                            [{"ds": "a", "threshold": 1, "race": {"at": 1, "ents": [E("e1", {"p1": "c"})]}}],
                            later=[[B("a", E("e1", A))] + block("a", ["e1"], "x1")]))
+    # a writer commits at the SECOND flush a new version of the entity whose pointer re-point was committed by the FIRST flush:
+    # no later flush may touch that pointer again
+    cs.append(compact_case(["a"], ["e1", "e2"], [B("a", E("e1", A), E("e2", Bb)), {"op": "dup", "ds": "a", "id": "http://v/e1"},
+                                                  {"op": "dup", "ds": "a", "id": "http://v/e2"}],
+                           [{"ds": "a", "threshold": 1, "race": {"at": 2, "ents": [E("e1", {"p1": "c"})]}}],
+                           later=[[B("a", E("e1", A))] + block("a", ["e1", "e2"], "x2")]))
+    cs.append(compact_case(["a"], ["e1", "e2", "e3"], [B("a", E("e1", A), E("e2", Bb), E("e3", A)), {"op": "dup", "ds": "a", "id": "http://v/e1"},
+                                                        {"op": "dup", "ds": "a", "id": "http://v/e2"}, {"op": "dup", "ds": "a", "id": "http://v/e3"}],
+                           [{"ds": "a", "threshold": 1, "race": {"at": 3, "ents": [E("e2", {"p1": "c"}), E("e1", {"p1": "bb"})]}}]))
     # write-path flags, so that the detected variant is the right one: F01a (engineered un-delete), F02b (nested entity re-posted)
     old, new = sc.ENGINEERED[0]
     cs.append(compact_case(["a"], ["e1"], [B("a", sc.with_id("e1", old)), B("a", sc.with_id("e1", new))], [{"ds": "a", "threshold": 1}]))
@@ -193,11 +204,13 @@ def gen_case(rng, tier):
     comps = []
     ncomp = rng.choice([1, 1, 2])
     later = []
-    for n in range(ncomp):
+    n = 0
+    while n < ncomp:
         cp = {"ds": datasets[0], "threshold": rng.choice(THRESHOLDS)}
         r = rng.below(10)
-        if r < 2:
+        if r < 2 and n < 2:
             cp["crash_at"] = rng.range(1, 3)
+            ncomp = max(ncomp, n + 2)                      # a killed compaction is always followed by another one
         elif r < 4:
             i = rng.choice(pool)
             ents = [sc.with_id(i, content_for(datasets[0], i))]
@@ -205,10 +218,12 @@ def gen_case(rng, tier):
                 j = rng.choice(pool)
                 ents.append(sc.with_id(j, content_for(datasets[0], j)))
             cp["race"] = {"at": rng.range(1, 3), "ents": ents}
-            if rng.chance(1, 4):
+            if rng.chance(1, 4) and n < 2:
                 cp["crash_at"] = rng.range(1, 3)
+                ncomp = max(ncomp, n + 2)
         comps.append(cp)
-        if n + 1 < ncomp:
+        n += 1
+        if n < ncomp:
             lw = []
             if rng.chance(1, 2):
                 i = rng.choice(pool)
@@ -217,9 +232,34 @@ def gen_case(rng, tier):
     return compact_case(datasets, pool, writes, comps, later)
 
 
+def gen_targeted(rng):
+    """k entities whose last version is a (legacy or in-batch) duplicate, threshold 1 or 2; either a writer at the r-th flush
+    writing entities whose re-point was (or was not yet) flushed, or a kill at the r-th flush followed by a full compaction"""
+    k = rng.range(2, 4)
+    pool = sc.IDS[:k]
+    writes = [B("a", *[E(i, {"p1": rng.choice(["a", "b", "bb"])}, ({"r1": rng.choice(sc.IDS[:3])} if rng.chance(1, 3) else None)) for i in pool])]
+    for i in pool:
+        for _ in range(rng.choice([1, 1, 2])):
+            writes.append({"op": "dup", "ds": "a", "id": "http://v/" + i})
+    thr = rng.choice([1, 1, 2])
+    r = rng.range(1, k + 1)
+    if rng.chance(2, 3):
+        tgt = [rng.choice(pool[:max(1, r - 1)])] + ([rng.choice(pool)] if rng.chance(1, 3) else [])
+        ents = []
+        for i in dict.fromkeys(tgt):
+            ents.append(E(i, {"p1": rng.choice(["c", "cc", 7])}))
+        comps = [{"ds": "a", "threshold": thr, "race": {"at": r, "ents": ents}}]
+        i = tgt[0]
+        later = [[B("a", E(i, {"p1": "a"}))] + block("a", pool, "x9")]
+        return compact_case(["a"], pool, writes, comps, later)
+    comps = [{"ds": "a", "threshold": thr, "crash_at": r}, {"ds": "a", "threshold": rng.choice(THRESHOLDS)}]
+    return compact_case(["a"], pool, writes, comps, [[]])
+
+
 def gen(rng, tier):
-    n = {"quick": 70, "thorough": 1200, "search": 250}[tier]
-    return [gen_case(rng, tier) for _ in range(n)]
+    n = {"quick": 60, "thorough": 1000, "search": 250}[tier]
+    m = {"quick": 20, "thorough": 300, "search": 80}[tier]
+    return [gen_case(rng, tier) for _ in range(n)] + [gen_targeted(rng) for _ in range(m)]
 
 
 def run(binp, cases):
@@ -293,10 +333,9 @@ def robs_term(case, obs, tag, ns, ticks):
                     rels.append((1 if op.get("inverse") else 0, CODES.ucode(sc.expand(r["start"], ns)) * 10000 + CODES.ucode(sc.expand(r["pred"], ns)),
                                  CODES.ucode(sc.expand(r["id"], ns)) if r["id"] else -1))
     rels.sort()
-    if bad:
-        rels.append((-9, -9, -9))
-    return "{| ro_full := %s; ro_latest := %s; ro_listing := %s;\n      ro_gets := %s;\n      ro_rels := %s |}" % (
-        full, latest, listing, vlib.coq_list(gets), vlib.coq_list(["(%s, %s, %s)" % tuple(vlib.zlit(x) for x in r) for r in rels]))
+    return "{| ro_full := %s; ro_latest := %s; ro_listing := %s;\n      ro_gets := %s;\n      ro_rels := %s; ro_bad := %s |}" % (
+        full, latest, listing, vlib.coq_list(gets), vlib.coq_list(["(%s, %s, %s)" % tuple(vlib.zlit(x) for x in r) for r in rels]),
+        vlib.coq_bool(bad))
 
 
 def vkey_term(ns, v, ticks):
@@ -366,26 +405,28 @@ def _compactions(c, o):
             yield op, (o["ops"][i] if i < len(o.get("ops", [])) else {})
 
 
+_ATTR = {}
+
+
 def attribute(c, o):
-    """finding whose trigger signature the case carries (None = the failure is not explained by a known finding)"""
+    """A spec failure is explained by known findings iff SOME model variant predicts everything observed in this case;
+    the finding named is the one whose trigger the case carries.  (Only called on the violation path: one Coq run per case.)"""
+    key = json.dumps(c, sort_keys=True)
+    if key not in _ATTR:
+        body = "Definition c : tcase := %s.\nEval vm_compute in (existsb (fun v => agree v c) variants).\n" % term(c, o)
+        ok, out, _ = vlib.coq_eval("C12a", CHECK_MODULE.split(), body)
+        _ATTR[key] = bool(ok and "= true" in out)
+    if not _ATTR[key]:
+        return None
     for op, oo in _compactions(c, o):
         if oo.get("raced"):
             return "F12b"
-    with_refs = {}
     for op in c["ops"]:
         if op["op"] == "batch":
             ids = [e["id"] for e in op["ents"] if e.get("refs")]
             if len(ids) != len(set(ids)):
-                return "F12c"          # an element with references repeated inside one batch
-            for i in ids:
-                with_refs[(op["ds"], i)] = with_refs.get((op["ds"], i), 0) + 1
-        elif op["op"] == "dup":
-            k = (op["ds"], op["id"].rsplit("/", 1)[-1])
-            if k in with_refs:
-                with_refs[k] += 1
-    if any(n >= 2 for n in with_refs.values()):
-        return "F12a"                  # an entity with at least two versions carrying references: the base can go stale
-    return None
+                return "F12c"
+    return "F12a"
 
 
 def size(c):
